@@ -13,6 +13,7 @@ import Driver.Handles
 import Driver.Settle
 import Driver.Conn
 import Driver.Life
+import Driver.Limits
 
 structure DState where
   sess : Amqp.Session.St := Amqp.Session.init 0 0 0
@@ -25,6 +26,7 @@ structure DState where
   rsettle : Amqp.Settle.RSt := Amqp.Settle.rinit false
   conn : Driver.Conn.DSt := Driver.Conn.init
   slife : Amqp.SessLife.St := Amqp.SessLife.mapped0
+  limits : Driver.Limits.DSt := {}
 
 def handle (st : DState) (line : String) : DState × String :=
   match Driver.words line with
@@ -70,6 +72,10 @@ def handle (st : DState) (line : String) : DState × String :=
     | some (s, out) => ({ st with slife := s }, out)
     | none => (st, "bad-op")
   | "L" :: ws => (st, (Driver.Life.linkCall ws).getD "bad-op")
+  | "N" :: ws =>
+    match Driver.Limits.step st.limits ws with
+    | some (s, out) => ({ st with limits := s }, out)
+    | none => (st, "bad-op")
   | "W" :: ws => (st, (Driver.Credit.wait ws).getD "bad-op")
   | _ => (st, "bad-op")
 
